@@ -13,17 +13,28 @@ def prove(ctx, spec):
             failed.append("extractor: %r" % (e,))
     mods = spec["lean_modules"]
     exes = sorted({model_exe(su[k]) for su in spec["suites"] for k in ("model_suite", "monitor_suite") if su.get(k)})
-    ok, out = lake_build(ctx, mods + exes)
     theorems = spec["theorems"]
     axioms = {}
+    ok, out = lake_build(ctx, mods + exes)
+    broken_mods = set()
     if not ok:
-        # find which modules failed; every theorem of a failed module is undischarged
-        res = audit(ctx, mods[0], theorems) if False else {}
-        for t in theorems:
-            failed.append("theorem %s: module does not build" % t)
         ctx.build_log = out[-4000:]
-        return len(theorems), 0, failed, axioms
+        # find out which pieces are broken: executables first (needed for the tie), then each theorem module alone
+        for e in exes:
+            eok, eout = lake_build(ctx, [e])
+            if not eok:
+                failed.append("model driver %s does not build" % e)
+        for m in set(list(mods) + list(spec["theorems_by_module"].keys())):
+            mok, mout = lake_build(ctx, [m])
+            if not mok:
+                broken_mods.add(m)
+        for mod, names in spec["theorems_by_module"].items():
+            if mod in broken_mods:
+                for t in names:
+                    failed.append("theorem %s: module %s does not build" % (t, mod))
     for mod, names in spec["theorems_by_module"].items():
+        if mod in broken_mods:
+            continue
         res = audit(ctx, mod, names)
         for t, (tok, axs) in res.items():
             axioms[t] = axs
@@ -41,7 +52,9 @@ def with_corpus(ctx, suite, gen_ops_path):
     """Prepend corpus cases (corpus/<pid>/<suite>*.ops) to generated ops."""
     lines = []
     n = 0
-    for f in sorted(glob.glob(os.path.join(VERIF, "corpus", ctx.pid, suite["name"] + "*.ops"))):
+    files = glob.glob(os.path.join(VERIF, "corpus", ctx.pid, suite["name"] + "_*.ops")) + \
+        glob.glob(os.path.join(VERIF, "corpus", ctx.pid, suite["name"] + ".ops"))
+    for f in sorted(set(files)):
         lines.append("# case corpus:%s" % os.path.basename(f))
         lines += [l for l in read_lines(f) if not l.startswith("# case")]
         n += 1
@@ -162,6 +175,10 @@ def correspond(ctx, spec, suite, stats):
             k = next(i for i in range(len(vi)) if vi[i] != vm[i])
             res["disagreements"].append({"case": c, "line": k})
         if cmon:
+            # Only the FIRST rejection of a case is used: after it the monitor's state no longer follows the
+            # implementation, so later rejections of the same case are consequences, not independent evidence.
+            # (Generators keep shapes that hit a listed finding in cases of their own, so a known class cannot
+            # mask a new one in ordinary cases.)
             fr = first_reject(cmon)
             if fr:
                 res["rejects"].append({"case": c, "line": fr[0], "msg": fr[1]})
